@@ -5,6 +5,8 @@
              9 UDP: a datagram is queued behind a suspended handler of the same address
              10 (standalone) shutdown() pre-empted right before its event wait   11 that thread resumes
              12 (standalone) NetworkServerThread(server).start(): two status slots (start(), the thread's serve_forever)
+             13 / 14 (standalone) serve_forever held before its first / second lock acquisition; 15 server_close held before
+             its second lock acquisition; 16 that call goes on
            standalone gates: [start-up window (locks held); service_init; tear-down before the bootstrap lock is re-acquired]
            released by 6 / 7 / 8
    After every label the internal transitions run to quiescence (gated completions only when released) and one
@@ -80,7 +82,9 @@ Record sst := { tclosed : bool; arun : option st; cur : nat; sstat : list Z;
                 tdown : option Z;              (* the serving thread is paused in its tear-down, before it re-acquires the
                                                   bootstrap lock (portal dead, fields not reset, event not set); outcome of its call *)
                 isup : bool;                   (* the is_up event of the current run has been set *)
-                starts : list (nat * nat) }.   (* NetworkServerThread.start() calls waiting: its slot, the slot of the thread's run *)
+                starts : list (nat * nat);     (* NetworkServerThread.start() calls waiting: its slot, the slot of the thread's run *)
+                paused : option (Z * nat);     (* a call held by the harness between two lock acquisitions: label 13/14/15, slot *)
+                heldc : bool; heldb : bool }.  (* the close lock / the bootstrap lock is held by that paused call *)
 
 Record sgates := { sg_window : bool; sg_init : bool; sg_teardown : bool }.
 
@@ -93,19 +97,23 @@ Fixpoint serve_outcome (os : list obs) : Z :=
 
 Definition upd (x : sst) (tc : bool) (ar : option st) (cu : nat) (ss : list Z) : sst :=
   {| tclosed := tc; arun := ar; cur := cu; sstat := ss; window := window x; blocked := blocked x;
-     pre := pre x; hung := hung x; tdown := tdown x; isup := isup x; starts := starts x |}.
+     pre := pre x; hung := hung x; tdown := tdown x; isup := isup x; starts := starts x; paused := paused x; heldc := heldc x; heldb := heldb x |}.
 Definition set_window (x : sst) (w : bool) (b : list (Z * nat)) : sst :=
   {| tclosed := tclosed x; arun := arun x; cur := cur x; sstat := sstat x; window := w; blocked := b;
-     pre := pre x; hung := hung x; tdown := tdown x; isup := isup x; starts := starts x |}.
+     pre := pre x; hung := hung x; tdown := tdown x; isup := isup x; starts := starts x; paused := paused x; heldc := heldc x; heldb := heldb x |}.
 Definition set_pre_hung (x : sst) (p : option (nat * bool)) (h : list nat) : sst :=
   {| tclosed := tclosed x; arun := arun x; cur := cur x; sstat := sstat x; window := window x; blocked := blocked x;
-     pre := p; hung := h; tdown := tdown x; isup := isup x; starts := starts x |}.
+     pre := p; hung := h; tdown := tdown x; isup := isup x; starts := starts x; paused := paused x; heldc := heldc x; heldb := heldb x |}.
 Definition set_tdown (x : sst) (t : option Z) : sst :=
   {| tclosed := tclosed x; arun := arun x; cur := cur x; sstat := sstat x; window := window x; blocked := blocked x;
-     pre := pre x; hung := hung x; tdown := t; isup := isup x; starts := starts x |}.
+     pre := pre x; hung := hung x; tdown := t; isup := isup x; starts := starts x; paused := paused x; heldc := heldc x; heldb := heldb x |}.
 Definition set_up_starts (x : sst) (u : bool) (l : list (nat * nat)) : sst :=
   {| tclosed := tclosed x; arun := arun x; cur := cur x; sstat := sstat x; window := window x; blocked := blocked x;
-     pre := pre x; hung := hung x; tdown := tdown x; isup := u; starts := l |}.
+     pre := pre x; hung := hung x; tdown := tdown x; isup := u; starts := l; paused := paused x; heldc := heldc x; heldb := heldb x |}.
+
+Definition set_paused (x : sst) (p : option (Z * nat)) (c b : bool) : sst :=
+  {| tclosed := tclosed x; arun := arun x; cur := cur x; sstat := sstat x; window := window x; blocked := blocked x;
+     pre := pre x; hung := hung x; tdown := tdown x; isup := isup x; starts := starts x; paused := p; heldc := c; heldb := b |}.
 
 Fixpoint set_all (is : list nat) (v : Z) (l : list Z) : list Z :=
   match is with [] => l | i :: is' => set_all is' v (set_nth i v l) end.
@@ -170,14 +178,50 @@ Fixpoint exec_blocked (g : sgates) (bs : list (Z * nat)) (x : sst) : sst :=
   | (c, i) :: bs' => exec_blocked g bs' (exec_call g c i x)
   end.
 
+(* does call c have to wait for a lock?  serve_forever and server_close need both locks, shutdown the bootstrap lock *)
+Definition blocks (x : sst) (c : Z) : bool :=
+  window x || (heldc x && (Z.eqb c 0 || Z.eqb c 2)) || (heldb x && (Z.eqb c 0 || Z.eqb c 1 || Z.eqb c 2)).
+
+Definition lock_flags (l : lockid) : bool * bool := match l with LClose => (true, false) | LBoot => (false, true) end.
+
 Definition sdo_label (g : sgates) (c : Z) (x : sst) : sst :=
   match c with
   | 0 | 1 | 2 =>
       let i := length (sstat x) in
       let x := upd x (tclosed x) (arun x) (cur x) (sstat x ++ [0]) in
-      if window x
-      then set_window x true (blocked x ++ [(c, i)])
+      if blocks x c
+      then set_window x (window x) (blocked x ++ [(c, i)])
       else exec_call g c i x
+  | 13 =>
+      (* serve_forever held before its FIRST lock acquisition (after whatever it does lock-free) *)
+      let i := length (sstat x) in
+      let x := upd x (tclosed x) (arun x) (cur x) (sstat x ++ [0]) in
+      if negb serve_closed_check_under_lock && tclosed x then set_stat x i 3
+      else set_paused x (Some (13, i)) false false
+  | 14 =>
+      (* serve_forever held before its SECOND lock acquisition: it holds its first lock and has made the test that goes with it *)
+      let i := length (sstat x) in
+      let x := upd x (tclosed x) (arun x) (cur x) (sstat x ++ [0]) in
+      let refused := match serve_first_lock with
+                     | LClose => if serve_closed_check_under_lock && tclosed x then 3 else 0
+                     | LBoot => if running x then 2 else 0
+                     end in
+      if negb (Z.eqb refused 0) then set_stat x i refused
+      else let '(hc, hb) := lock_flags serve_first_lock in set_paused x (Some (14, i)) hc hb
+  | 15 =>
+      (* server_close held before its SECOND lock acquisition *)
+      let i := length (sstat x) in
+      let x := upd x (tclosed x) (arun x) (cur x) (sstat x ++ [0]) in
+      let '(hc, hb) := lock_flags close_first_lock in set_paused x (Some (15, i)) hc hb
+  | 16 =>
+      match paused x with
+      | None => x
+      | Some (k, i) =>
+          let bs := blocked x in
+          let x := set_window (set_paused x None false false) (window x) [] in
+          let x := exec_call g (if Z.eqb k 15 then 2 else 0) i x in
+          exec_blocked g bs x
+      end
   | 3 => async_do g false x LConnect
   | 4 => async_do g false x LDisconnect
   | 6 =>
@@ -215,7 +259,7 @@ Definition sdo_label (g : sgates) (c : Z) (x : sst) : sst :=
       (* NetworkServerThread(server).start(): two slots, the start() call and the thread's serve_forever *)
       let i := length (sstat x) in
       let x := upd x (tclosed x) (arun x) (cur x) (sstat x ++ [0; 0]) in
-      let x := exec_call g 0 (S i) x in
+      let x := if blocks x 0 then set_window x (window x) (blocked x ++ [(0, S i)]) else exec_call g 0 (S i) x in
       set_up_starts x (isup x) (starts x ++ [(i, S i)])
   | _ => x
   end.
@@ -261,7 +305,7 @@ Definition run (x : sx) : sx :=
       if Z.leb 2 k
       then L (srun_labels {| sg_window := negb (Z.eqb gf 0); sg_init := negb (Z.eqb gi 0); sg_teardown := negb (Z.eqb gc 0) |} cs
                 {| tclosed := false; arun := None; cur := O; sstat := []; window := false; blocked := []; pre := None;
-                   hung := []; tdown := None; isup := false; starts := [] |})
+                   hung := []; tdown := None; isup := false; starts := []; paused := None; heldc := false; heldb := false |})
       else
       L (run_labels {| g_factory := negb (Z.eqb gf 0); g_init := negb (Z.eqb gi 0); g_client := negb (Z.eqb gc 0) |}
                     cs init [])
